@@ -41,6 +41,12 @@ def gen_case(rng, tier, profile=None):
     for _ in range(nops):
         x = rng.random()
         g = _mk_gen(rng, profile)
+        if profile != 'scope' and rng.random() < 0.06:
+            # a named reference to a focus-dependent function captures the focus where it is evaluated
+            ops.append({'op': 'focusref', 't': rng.randrange(len(FOCUS_TEMPLATES)),
+                        'seq': [rng.randint(0, 9) for _ in range(rng.choice([1, 2, 3, 4]))],
+                        'mode': rng.choice(['select', 'selector-twice'])})
+            continue
         if x < 0.45 or (profile == 'scope' and x < 0.8):
             ty = rng.choice(['I', 'S', 'B'])
             ast = g.gen(ty, {}, rng.randint(1, maxd))
@@ -68,6 +74,17 @@ def gen_case(rng, tier, profile=None):
     for _ in range(rng.choice([0, 1, 2, 4])):
         ops.append({'op': 'call', 'fn': rng.randrange(12), 'seed': rng.randrange(1 << 30)})
     return {'config': {'profile': profile}, 'ops': ops}
+
+
+FOCUS_TEMPLATES = [
+    ("let $fs := %s ! number#0 return for $f in $fs return $f()", lambda q: [['float', repr(float(x))] for x in q]),
+    ("(%s ! string#0) ! .()", lambda q: [['str', str(x)] for x in q]),
+    ("let $fs := %s ! string#0 return ($fs[last()](), $fs[1]())", lambda q: [['str', str(q[-1])], ['str', str(q[0])]] if q else []),
+    ("for-each(%s ! string#0, function($f) { $f() })", lambda q: [['str', str(x)] for x in q]),
+    ("(%s ! position#0) ! .()", lambda q: [['int', str(i)] for i in range(1, len(q) + 1)]),
+    ("let $fs := %s ! last#0 return reverse($fs) ! .()", lambda q: [['int', str(len(q))] for _ in q]),
+    ("let $fs := for $i in %s return ($i ! number#0) return $fs ! .()", lambda q: [['float', repr(float(x))] for x in q]),
+]
 
 
 def _args_for(ptypes, seed):
@@ -183,6 +200,31 @@ def run_case(case, world):
                 elif _strip_fn(outcome[1]) != _strip_fn(expected[1]):
                     violate('MODEL_MISMATCH', what, '%s gave %r, reference interpreter gives %r' % (
                         text, outcome[1], expected[1]), flags)
+        elif kind == 'focusref':
+            tmpl, expect = FOCUS_TEMPLATES[op['t'] % len(FOCUS_TEMPLATES)]
+            text = tmpl % ('(' + ', '.join(str(x) for x in op['seq']) + ')')
+            expected = expect(op['seq'])
+            stats['programs'] += 1
+            world.event(('focusref', idx, text))
+            try:
+                outs = []
+                if op.get('mode') == 'selector-twice':
+                    s_ = elementpath.Selector(text, parser=XPath31Parser)
+                    outs.append(_engine_items(s_.select(None, item=1)))
+                    outs.append(_engine_items(s_.select(None, item=1)))
+                else:
+                    outs.append(_engine_items(elementpath.select(None, text, parser=XPath31Parser, item=1)))
+                for got in outs:
+                    if got != expected:
+                        violate('MODEL_MISMATCH', 'focusref', '%s gave %r, expected %r' % (text, got, expected), set(),
+                                ['focus-dependent-function-reference'])
+                        break
+            except Exception as e:
+                world.event(('error', idx, canon_exc(e)))
+                if is_ep_error(e):
+                    violate('MODEL_MISMATCH', 'focusref', '%s raised %r, expected %r' % (text, canon_exc(e), expected), set(),
+                            ['focus-dependent-function-reference', 'engine-error'])
+            shapes.append('focusref')
         elif kind == 'make':
             text = ML.render(op['ast'])
             stats['ast_nodes'] += ML.size(op['ast'])
